@@ -220,7 +220,7 @@ def gen_particle(rng, star=False):
                 vz=rng.uniform(-0.01, 0.01), r=0.0)
 
 
-def gen_history(rng, nappend, structural=None, auto=None):
+def gen_history(rng, nappend, structural=None, auto=None, variant=None):
     """-> dict(init=..., ops=[...]).  structural in {None,'reset_after_whfast','remove_all','shrink_zero_reappear',
     'ias15_reset','switch_many','same_time','negzero'}; auto in {None,'interval','step'}"""
     hist_tag = None
@@ -317,7 +317,8 @@ def gen_history(rng, nappend, structural=None, auto=None):
     elif structural == "lazy_arrays":
         # every integrator's lazily allocated persisted arrays: present in the first snapshot (taken after steps),
         # changed by further steps, then the integrator is switched / reset
-        integ = rng.choice(["ias15", "whfast_unsafe", "mercurius_encounter", "bs", "janus", "trace_encounter", "saba", "eos", "sei", "leapfrog"])
+        kinds_ = ["ias15", "whfast_unsafe", "mercurius_encounter", "bs", "janus", "trace_encounter", "saba", "eos", "sei", "leapfrog"]
+        integ = kinds_[(variant // 6) % len(kinds_)] if variant is not None else rng.choice(kinds_)
         init["particles"] = [gen_particle(rng, star=True), gen_particle(rng), gen_particle(rng)]
         pre = []
         if integ == "whfast_unsafe":
